@@ -72,20 +72,24 @@ func runC07(c *Ctx, r *Report, tier string) {
 		}
 		// MISS
 		nMiss := 0
-		for _, in := range c.instrs(fn, c.isCallTo("newErrorf")) {
+		for _, ci := range c.instrsCtx(fn, c.isCallTo("newErrorf")) {
+			in := ci.In
 			e := in.(*ssa.Call)
 			if c.term(e.Call.Args[0]) != "ErrUnknownFlag" {
 				continue
 			}
 			nMiss++
+			// the constructor may sit in a helper shared by both parsers: judge it in the context of this caller
 			_, req := c.Requires(fn, isInstr(in), func(l Lit) bool { return !l.Pos && strings.HasPrefix(l.Term, "nonnil("+want) }, nil)
 			named := false
-			for _, a := range sliceLitElems(e.Call.Args[2]) {
-				ta := c.term(a)
-				if (fn == pl && ta == "P2") || (fn == ps && strings.HasPrefix(ta, "conv[string](next(range(")) {
-					named = true
+			c.within(ci.Frames, func() {
+				for _, a := range sliceLitElems(e.Call.Args[2]) {
+					ta := c.term(a)
+					if (fn == pl && ta == "P2") || (fn == ps && strings.HasPrefix(ta, "conv[string](next(range(")) {
+						named = true
+					}
 				}
-			}
+			})
 			r.Check(req && named, "MISS", fname, "ErrUnknownFlag on the lookup's nil edge, naming the name", c.ipos(in), "REQ(lookup == nil) and the message argument is the looked-up name", fmt.Sprintf("nil-edge necessary=%v names-the-name=%v", req, named))
 		}
 		r.Check(nMiss == 1, "MISS", fname, "one unknown-flag error", c.pos(fn.Pos()), "one", fmt.Sprintf("%d", nMiss))
@@ -132,13 +136,13 @@ func runC07(c *Ctx, r *Report, tier string) {
 		opt := "idx(Group.options(P0), "
 		switch m {
 		case "lookup.longNames":
-			ok := flCl != nil && u.fn == c.fname(flCl) && strings.HasPrefix(u.key, "call:(*Option).LongNameWithNamespace("+opt) && strings.HasPrefix(u.val, opt)
+			ok := flCl != nil && c.actsFor(u.in.Parent(), flCl) && strings.HasPrefix(u.key, "call:(*Option).LongNameWithNamespace("+opt) && strings.HasPrefix(u.val, opt)
 			r.Check(ok, "TABLES", u.fn, "longNames[LongNameWithNamespace(o)] = o", c.ipos(u.in), "keyed by the namespaced long name of the stored option, untransformed", "longNames["+trunc(u.key, 80)+"] = "+trunc(u.val, 60))
 		case "lookup.shortNames":
-			ok := flCl != nil && u.fn == c.fname(flCl) && strings.HasPrefix(u.key, "conv[string](Option.ShortName("+opt) && strings.HasPrefix(u.val, opt)
+			ok := flCl != nil && c.actsFor(u.in.Parent(), flCl) && strings.HasPrefix(u.key, "conv[string](Option.ShortName("+opt) && strings.HasPrefix(u.val, opt)
 			r.Check(ok, "TABLES", u.fn, "shortNames[string(o.ShortName)] = o", c.ipos(u.in), "keyed by the short rune of the stored option", "shortNames["+trunc(u.key, 80)+"] = "+trunc(u.val, 60))
 		case "lookup.commands":
-			ok := u.fn == c.fname(fl)
+			ok := c.actsFor(u.in.Parent(), fl)
 			r.Check(ok, "TABLES", u.fn, "commands map written by fillLookup", c.ipos(u.in), "only fillLookup fills the command table", "commands map written in "+u.fn)
 		}
 	}
